@@ -43,6 +43,9 @@ class SV:
 class Unknown(Exception):
     """the shadow does not predict this situation exactly (only the invariants apply)"""
 
+class MustPanic(Unknown):
+    """the shadow does not predict the effects, but it knows that the call has to panic (by the crate's contract)"""
+
 class Exp:
     def __init__(self):
         self.res = "ok"; self.out = []; self.vis = {}; self.drops = []; self.clones = []
@@ -358,7 +361,7 @@ class Shadow:
         ok_types = all(ty == d.ty for (_, ty, *_) in rvals)
         final_len = len(vis) - (e - s) + len(rvals)
         if d.fixed() and final_len > d.cap: raise Unknown("splice beyond a fixed capacity")
-        if not ok_types: raise Unknown("splice with a mismatched replacement")
+        if not ok_types: raise MustPanic("a replacement item of another type than the vector's elements reaches the splice")
         for rv in rvals:
             newvis.append(rv[0])
             if rv[2] == "l": ex.clones.append((rv[3], rv[0]))
@@ -373,6 +376,10 @@ class Shadow:
         ex = None
         try:
             ex = self.expect(toks)
+        except MustPanic as e:
+            ex = None
+            if fault is None and o.res == "ok":
+                self.fail("vec-semantics", "%s: expected result panic (%s), observed ok" % (" ".join(toks), e))
         except Unknown:
             ex = None
         except (KeyError, IndexError, ValueError) as e:
